@@ -7,7 +7,7 @@ open Dia.Cl (Msg WStatus Item Reader SendPhase upd)
 def lift (s : Cl.St) : St :=
   { nW := s.nW, hbhOf := s.hbhOf, status := s.status, cache := s.cache, closed := s.closed, nC := 1,
     wire := fun c => if c = 0 then s.wire else [], reader := fun c => if c = 0 then s.reader else .running,
-    emitted := s.emitted, send := s.send, sentOn := fun _ => 0 }
+    emitted := s.emitted, send := s.send, sentOn := fun _ => 0, started := s.started }
 
 def liftL : Cl.Label → Label
   | .sendBegin h => .sendBegin h
@@ -22,7 +22,7 @@ def liftL : Cl.Label → Label
 
 theorem St.ext' {a b : St} (h1 : a.nW = b.nW) (h2 : a.hbhOf = b.hbhOf) (h3 : a.status = b.status) (h4 : a.cache = b.cache)
     (h5 : a.closed = b.closed) (h6 : a.nC = b.nC) (h7 : a.wire = b.wire) (h8 : a.reader = b.reader)
-    (h9 : a.emitted = b.emitted) (h10 : a.send = b.send) (h11 : a.sentOn = b.sentOn) : a = b := by
+    (h9 : a.emitted = b.emitted) (h10 : a.send = b.send) (h11 : a.sentOn = b.sentOn) (h12 : a.started = b.started) : a = b := by
   cases a; cases b; simp_all
 
 theorem lift_init : step init .connect = some (lift Cl.init) := by
